@@ -9,12 +9,23 @@
 //!
 //! input lines
 //!   {"ev":"case","serverCert":..,"nameMatches":..,"skipVerify":..,"clientCert":..,"serverClientCA":..}
-//!   {"ev":"script","id":n,"mtls":bool,"ops":[{"op":"connect"|"reload"|"use","conn":k},..]}
-//!   {"ev":"rscript","id":n,"mtls":bool,"ops":[{"op":"connect","conn":k|0,"cc":"trustedCA"|"none"|"otherCA"}
-//!                                              |{"op":"reload"}|{"op":"use","conn":k},..]}
+//!   {"ev":"script","id":n,"mtls":bool,"ops":[{"op":"connect"|"reload"|"rotate"|"use","conn":k[,"cc":..]},..]}
+//!   {"ev":"rscript","id":n,"mtls":bool,"ops":[{"op":"connect","conn":k|0,"cc":"trustedCA"|"none"|"otherCA"|"gen<g>"}
+//!                                              |{"op":"reload"}|{"op":"rotate"}|{"op":"use","conn":k},..]}
 //!       the same machine through the REAL server entry point (see "real-server scripts" below)
+//!       "botch" (rscript only): a reload request that FAILS: live.key is overwritten with something that is no key and
+//!       SIGUSR1 is raised; the next "reload" installs a complete identity again.
+//!       "rotate": the server's client CA bundle (--tls-ca, client_ca_live.pem) is overwritten IN PLACE, at the same
+//!       path, with the next generation of the CA; nothing is reloaded. "cc": the client certificate presented:
+//!       none, one of another CA, "trustedCA" = generation 0 of the client CA, "gen<g>" = generation g. A connect
+//!       without "cc" (scripts without rotation) presents the certificate the server was set up for; "conn":0 =
+//!       the script does not keep the connection (the property refuses the handshake).
+//!   {"ev":"cscript","id":n,"ops":[{"op":"connect","srv":"trustedCA"|"gen<g>"|"otherCA"}|{"op":"rotate"},..]}
+//!       client side: ONE roots file (roots_live.pem) of this process, overwritten in place by "rotate" with the next
+//!       generation of the CA; "connect" = the application's tls_connect with that path against a server whose
+//!       certificate was issued by `srv`
 //!   optional "alg", "namekind", "pki" pin the PKI parameters (replay files: logged lines are valid input;
-//!   lines with "ev":"step" / "rstep" are ignored)
+//!   lines with "ev":"step" / "rstep" / "cstep" are ignored)
 //!
 //! server side: exactly the serve path of penguin/src/server/mod.rs (`run_listener` + `serve_connection_tls`):
 //!   `tokio_rustls::TlsAcceptor::from(identity.load_full()).accept(stream)`.
@@ -251,7 +262,27 @@ struct Pki {
     req_name: String,
     dir: PathBuf,
     trusted: Ca,
+    /// generations 1, 2, .. of the CA (generation 0 is `trusted`), made when first needed
+    gens: std::sync::Mutex<Vec<Ca>>,
 }
+
+/// the name of generation `g` of the CA in scripts and file names
+fn gen_name(g: usize) -> String {
+    if g == 0 { "trustedCA".into() } else { format!("gen{g}") }
+}
+
+/// "gen<g>" -> g
+fn gen_of(name: &str) -> Option<usize> {
+    if name == "trustedCA" {
+        return Some(0);
+    }
+    name.strip_prefix("gen").and_then(|n| n.parse().ok())
+}
+
+/// the client CA bundle the server is pointed at (--tls-ca); rewritten in place by "rotate"
+const CLIENT_CA_LIVE: &str = "client_ca_live.pem";
+/// the roots file the client of the client-side scripts is pointed at; rewritten in place by "rotate"
+const ROOTS_LIVE: &str = "roots_live.pem";
 
 impl Pki {
     fn path(&self, f: &str) -> String {
@@ -272,6 +303,39 @@ impl Pki {
         let (c, k) = make_leaf(&format!("srv-v{v}"), &[&self.req_name], true, serial, Some(&self.trusted), &self.alg);
         self.write(&format!("ident_v{v}.crt"), &c);
         self.write(&format!("ident_v{v}.key"), &k);
+    }
+    /// generation `g` of the CA with a client certificate (cli_gen<g>) and a server certificate for the requested
+    /// name (srv_gen<g>_match) issued under it; generation 0 is the trusted CA made with the set
+    fn ensure_gen(&self, g: usize) {
+        let mut gens = self.gens.lock().expect("tool: gens");
+        while gens.len() < g {
+            let n = gens.len() + 1;
+            let name = gen_name(n);
+            let ca = make_ca(&format!("trusted-ca-{name}"), &self.alg, u8::try_from(2 + n).expect("tool: too many CA generations"));
+            self.write(&format!("ca_{name}.pem"), &ca.pem);
+            let serial = u8::try_from(40 + 2 * n).expect("tool: too many CA generations");
+            let (c, k) = make_leaf(&format!("cli-{name}"), &["client.penguin.test"], false, serial, Some(&ca), &self.alg);
+            self.write(&format!("cli_{name}.crt"), &c);
+            self.write(&format!("cli_{name}.key"), &k);
+            let (c, k) = make_leaf(&format!("srv-{name}-match"), &[&self.req_name], true, serial + 1, Some(&ca), &self.alg);
+            self.write(&format!("srv_{name}_match.crt"), &c);
+            self.write(&format!("srv_{name}_match.key"), &k);
+            gens.push(ca);
+        }
+    }
+    /// makes sure the certificate named `which` ("gen<g>") exists
+    fn ensure_named(&self, which: &str) {
+        if let Some(g) = gen_of(which) {
+            self.ensure_gen(g);
+        }
+    }
+    /// Overwrites `file` IN PLACE (same path, same inode: open + truncate + write) with the certificate of
+    /// generation `g` of the CA, as an operator rotating a CA bundle does.
+    fn install_ca(&self, file: &str, g: usize) {
+        self.ensure_gen(g);
+        let src = if g == 0 { "ca_trusted.pem".to_string() } else { format!("ca_{}.pem", gen_name(g)) };
+        let pem = std::fs::read(self.dir.join(src)).expect("tool: read CA PEM");
+        std::fs::write(self.dir.join(file), pem).expect("tool: overwrite CA bundle in place");
     }
     fn install_ident(&self, v: usize) {
         self.ensure_ident(v);
@@ -296,7 +360,15 @@ fn make_pki(root: &Path, index: u64, alg: &str, namekind: &str, salt: u64) -> Pk
     let (req_name, other_name) = names(namekind, salt);
     let trusted = make_ca("trusted-ca", alg, 1);
     let other = make_ca("other-ca", alg, 2);
-    let pki = Pki { index, alg: alg.into(), namekind: namekind.into(), req_name: req_name.clone(), dir, trusted };
+    let pki = Pki {
+        index,
+        alg: alg.into(),
+        namekind: namekind.into(),
+        req_name: req_name.clone(),
+        dir,
+        trusted,
+        gens: std::sync::Mutex::new(Vec::new()),
+    };
     pki.write("ca_trusted.pem", &pki.trusted.pem);
     pki.write("ca_other.pem", &other.pem);
     let mut serial = 10u8;
@@ -577,9 +649,13 @@ async fn run_script(pki: &Pki, s: &Value, out: &mut Vec<Value>) {
     out.push(merge(json!({"ev": "script", "id": id, "mtls": mtls, "ops": ops}), &pki.tags()));
     let live_crt = pki.path("live.crt");
     let live_key = pki.path("live.key");
-    let sca = mtls.then(|| pki.path("ca_trusted.pem"));
+    // the server's client CA bundle: ONE path for the whole script (and for every script of this process); its
+    // content starts as generation 0 (the trusted CA) and is replaced in place by "rotate"
+    let sca = mtls.then(|| pki.path(CLIENT_CA_LIVE));
     let mut version = 0usize;
+    let (mut ca_gen, mut ca_loaded) = (0usize, 0usize);
     pki.install_ident(0);
+    pki.install_ca(CLIENT_CA_LIVE, 0);
     let identity = match make_tls_identity(&live_crt, &live_key, sca.as_deref()).await {
         Ok(i) => i,
         Err(e) => {
@@ -591,10 +667,15 @@ async fn run_script(pki: &Pki, s: &Value, out: &mut Vec<Value>) {
     for (i, op) in ops.iter().enumerate() {
         let kind = op["op"].as_str().expect("tool: op");
         let conn = op["conn"].as_u64().unwrap_or(0) as usize;
-        let mut line = json!({"ev": "step", "id": id, "i": i + 1, "op": kind, "conn": conn, "mtls": mtls});
+        let mut line = json!({"ev": "step", "id": id, "i": i + 1, "op": kind, "conn": conn, "mtls": mtls,
+                              "ca_gen": ca_gen, "ca_loaded": ca_loaded});
         match kind {
             "connect" => {
-                let (ccrt, ckey) = client_cert_paths(pki, if mtls { "trustedCA" } else { "none" });
+                // without "cc": the client that was set up for this server (scripts without rotation)
+                let cc = op["cc"].as_str().unwrap_or(if mtls { "trustedCA" } else { "none" }).to_string();
+                line["cc"] = json!(cc);
+                pki.ensure_named(&cc);
+                let (ccrt, ckey) = client_cert_paths(pki, &cc);
                 let ccfg = ClientCfg {
                     name: pki.req_name.clone(),
                     cert: ccrt,
@@ -607,13 +688,28 @@ async fn run_script(pki: &Pki, s: &Value, out: &mut Vec<Value>) {
                 let cfg = identity.load_full();
                 let ((c, cst), (s, sst)) = tokio::join!(guarded(client_side(cio, ccfg)), guarded(server_side(sio, cfg)));
                 put_sides(&mut line, &c, &s);
-                conns.push(match (cst, sst) {
+                // conn = the slot the script gives this connection (0: the script does not keep it)
+                let both = match (cst, sst) {
                     (Some(a), Some(b)) => Some((a, b)),
                     _ => None,
-                });
+                };
+                if conn > 0 {
+                    if conns.len() < conn {
+                        conns.resize_with(conn, || None);
+                    }
+                    conns[conn - 1] = both;
+                }
+            }
+            "rotate" => {
+                ca_gen += 1;
+                pki.install_ca(CLIENT_CA_LIVE, ca_gen);
+                line["res"] = json!("ok");
+                line["to"] = json!(ca_gen);
+                line["path"] = json!(CLIENT_CA_LIVE);
             }
             "reload" => {
                 version += 1;
+                ca_loaded = ca_gen;
                 pki.install_ident(version);
                 let r = {
                     let identity = identity.clone();
@@ -661,6 +757,56 @@ async fn run_script(pki: &Pki, s: &Value, out: &mut Vec<Value>) {
                         }
                     }
                 }
+            }
+            other => panic!("tool: unknown operation {other}"),
+        }
+        out.push(line);
+    }
+}
+
+// ------------------------------------------------------------------------------------------------
+// a client-side script: the roots file of the client replaced in place
+// ------------------------------------------------------------------------------------------------
+// One client "process" (this one), pointed at ONE roots file for all its connections: roots_live.pem of the PKI set.
+// "rotate" overwrites the file in place with the next generation of the CA; "connect" is the application's
+// `tls_connect` with that path against a server (the application's make_server_config, no client CA) presenting a
+// certificate for the requested name issued by `srv`.
+async fn run_cscript(pki: &Pki, s: &Value, out: &mut Vec<Value>) {
+    let id = s["id"].clone();
+    let ops = s["ops"].as_array().expect("tool: ops").clone();
+    out.push(merge(json!({"ev": "cscript", "id": id, "ops": ops}), &pki.tags()));
+    let mut roots = 0usize;
+    pki.install_ca(ROOTS_LIVE, 0);
+    for (i, op) in ops.iter().enumerate() {
+        let kind = op["op"].as_str().expect("tool: op");
+        let mut line = json!({"ev": "cstep", "id": id, "i": i + 1, "op": kind, "roots": roots, "path": ROOTS_LIVE});
+        match kind {
+            "connect" => {
+                let srv = op["srv"].as_str().expect("tool: srv").to_string();
+                line["srv"] = json!(srv);
+                pki.ensure_named(&srv);
+                let scrt = pki.path(&format!("srv_{srv}_match.crt"));
+                let skey = pki.path(&format!("srv_{srv}_match.key"));
+                let ccfg = ClientCfg { name: pki.req_name.clone(), cert: None, key: None, ca: Some(pki.path(ROOTS_LIVE)), skip: false };
+                let (cio, sio) = tokio::io::duplex(1 << 16);
+                let server = guarded(async move {
+                    match make_server_config(&scrt, &skey, None).await {
+                        Ok(cfg) => server_side(sio, Arc::new(cfg)).await,
+                        Err(e) => (Side::failed("config_err", format!("{e:?}")), None),
+                    }
+                });
+                let ((c, cst), (s, sst)) = tokio::join!(guarded(client_side(cio, ccfg)), server);
+                put_sides(&mut line, &c, &s);
+                if let Some(mut st) = cst {
+                    let _ = tokio::time::timeout(Duration::from_secs(2), st.shutdown()).await;
+                }
+                drop(sst);
+            }
+            "rotate" => {
+                roots += 1;
+                pki.install_ca(ROOTS_LIVE, roots);
+                line["res"] = json!("ok");
+                line["to"] = json!(roots);
             }
             other => panic!("tool: unknown operation {other}"),
         }
@@ -929,19 +1075,22 @@ async fn real_script(pki: &Pki, s: &Value, out: &mut Vec<Value>) -> RealEnd {
     let id = s["id"].clone();
     let mtls = s["mtls"].as_bool().unwrap_or(false);
     let ops = s["ops"].as_array().expect("tool: ops").clone();
-    let right = if mtls { "trustedCA" } else { "none" };
     // (1) of the reload protocol; also disarms the default action of SIGUSR1 for good
     let mut own_usr1 = tokio::signal::unix::signal(tokio::signal::unix::SignalKind::user_defined1())
         .expect("tool: cannot listen for SIGUSR1");
     let mut version = 0usize;
+    let (mut ca_gen, mut ca_loaded) = (0usize, 0usize);
+    let mut botched = 0usize;
     pki.install_ident(0);
+    // --tls-ca: ONE path for the whole script (and every script of this process), generation 0 to begin with
+    pki.install_ca(CLIENT_CA_LIVE, 0);
     let port = free_port();
     let args: &'static ServerArgs = Box::leak(Box::new(ServerArgs {
         host: vec!["127.0.0.1".to_string()],
         port: vec![port],
         tls_cert: Some(pki.path("live.crt")),
         tls_key: Some(pki.path("live.key")),
-        tls_ca: mtls.then(|| pki.path("ca_trusted.pem")),
+        tls_ca: mtls.then(|| pki.path(CLIENT_CA_LIVE)),
         not_found_resp: NOT_FOUND_BODY.to_string(),
         timeout: penguin_mux::timing::OptionalDuration::from_secs(SERVER_TIMEOUT_SECS),
         ..Default::default()
@@ -991,11 +1140,31 @@ async fn real_script(pki: &Pki, s: &Value, out: &mut Vec<Value>) -> RealEnd {
     for (i, op) in ops.iter().enumerate() {
         let kind = op["op"].as_str().expect("tool: op");
         let conn = op["conn"].as_u64().unwrap_or(0) as usize;
-        let mut line = json!({"ev": "rstep", "id": id, "i": i + 1, "op": kind, "conn": conn, "mtls": mtls, "reloads": version});
+        let mut line = json!({"ev": "rstep", "id": id, "i": i + 1, "op": kind, "conn": conn, "mtls": mtls, "reloads": version,
+                              "ca_gen": ca_gen, "ca_loaded": ca_loaded, "botched": botched});
         match kind {
+            "botch" => {
+                // an incomplete renewal: the key file is unusable when the reload is requested. There is nothing to
+                // wait for but the delivery of the signal: whether the server has already tried (and failed) or not,
+                // it serves the identity installed last; the next "reload" writes a complete identity again.
+                botched += 1;
+                std::fs::write(pki.dir.join("live.key"), "-----BEGIN NOTHING-----\nAAAA\n-----END NOTHING-----\n")
+                    .expect("tool: overwrite key file");
+                // SAFETY: plain libc call; a handler for SIGUSR1 is installed (own_usr1 above)
+                let rc = unsafe { libc::kill(libc::getpid(), libc::SIGUSR1) };
+                assert!(rc == 0, "tool: kill(getpid(), SIGUSR1) failed");
+                match tokio::time::timeout(SIGNAL_DEADLINE, own_usr1.recv()).await {
+                    Ok(Some(())) => {}
+                    _ => panic!("tool: SIGUSR1 was raised but not delivered to this process's listeners within {SIGNAL_DEADLINE:?}"),
+                }
+                line["res"] = json!("signalled");
+                line["n"] = json!(botched);
+                line["server_running"] = json!(!server.is_finished());
+            }
             "connect" => {
                 let cc = op["cc"].as_str().expect("tool: cc").to_string();
                 line["cc"] = json!(cc);
+                pki.ensure_named(&cc);
                 let (obs, st) = guarded_real(real_client(port, real_client_cfg(pki, &cc))).await;
                 put_real(&mut line, &obs);
                 // conn = the slot the script gives this connection (0: the script does not keep it)
@@ -1013,9 +1182,23 @@ async fn real_script(pki: &Pki, s: &Value, out: &mut Vec<Value>) -> RealEnd {
                     }
                 }
             }
+            "rotate" => {
+                // the operator replaces the CA bundle in place; no signal
+                ca_gen += 1;
+                pki.install_ca(CLIENT_CA_LIVE, ca_gen);
+                line["res"] = json!("ok");
+                line["to"] = json!(ca_gen);
+                line["path"] = json!(CLIENT_CA_LIVE);
+            }
             "reload" => {
                 version += 1;
+                ca_loaded = ca_gen;
                 pki.install_ident(version);
+                // the probes present what the NEW configuration must accept: the certificate of the CA generation at
+                // the configured path (nothing without mutual TLS)
+                let right = if mtls { gen_name(ca_gen) } else { "none".to_string() };
+                pki.ensure_named(&right);
+                line["cc"] = json!(right);
                 let want_serial = 100 + version as u64;
                 // SAFETY: plain libc call; a handler for SIGUSR1 is installed (own_usr1 above)
                 let rc = unsafe { libc::kill(libc::getpid(), libc::SIGUSR1) };
@@ -1028,7 +1211,7 @@ async fn real_script(pki: &Pki, s: &Value, out: &mut Vec<Value>) -> RealEnd {
                 let mut polls = 0u64;
                 let (res, last) = loop {
                     polls += 1;
-                    let (obs, st) = guarded_real(real_client(port, real_client_cfg(pki, right))).await;
+                    let (obs, st) = guarded_real(real_client(port, real_client_cfg(pki, &right))).await;
                     if let Some(mut st) = st {
                         let _ = tokio::time::timeout(Duration::from_secs(2), st.shutdown()).await;
                     }
@@ -1139,7 +1322,7 @@ fn main() {
         .lines()
         .filter(|l| !l.trim().is_empty())
         .map(|l| serde_json::from_str(l).expect("tool: malformed case line"))
-        .filter(|v: &Value| v["ev"] == "case" || v["ev"] == "script" || v["ev"] == "rscript")
+        .filter(|v: &Value| v["ev"] == "case" || v["ev"] == "script" || v["ev"] == "rscript" || v["ev"] == "cscript")
         .collect();
 
     let rt = tokio::runtime::Builder::new_multi_thread().worker_threads(2).enable_all().build().expect("tool: runtime");
@@ -1180,6 +1363,16 @@ fn main() {
                     let msg = panic_text(p.as_ref());
                     assert!(!msg.starts_with("tool:"), "{msg}");
                     lines.push(json!({"ev": "rstep", "id": item["id"], "i": n, "op": "panic", "conn": 0, "res": "panic", "err": msg}));
+                }
+            } else if item["ev"] == "cscript" {
+                let mut part = Vec::new();
+                let r = rt.block_on(AssertUnwindSafe(run_cscript(pki, item, &mut part)).catch_unwind());
+                let n = part.len();
+                lines.append(&mut part);
+                if let Err(p) = r {
+                    let msg = panic_text(p.as_ref());
+                    assert!(!msg.starts_with("tool:"), "{msg}");
+                    lines.push(json!({"ev": "cstep", "id": item["id"], "i": n, "op": "panic", "res": "panic", "err": msg}));
                 }
             } else {
                 let mut part = Vec::new();
